@@ -37,7 +37,8 @@ TECHNIQUE = ("Hypothesis-generated multi-language trees from the seed library x 
 RULE = (
     "case = one CLI command + a tree of 2-10 seeded files (py/ts/js/rs, 1-3 planted constructs each, the command's own "
     "family preferred; duplicate-code / repeated-validation file sets and one-file duplicates for the cross-file "
-    "commands) in <=5 directories + a subset of files + an optional sub-directory target with recursive flag + files for "
+    "commands; now and then Rust files judged by their own imports and extension-less files: Makefile, LICENSE, python-shebang "
+    "scripts) in <=5 directories + a subset of files + an optional sub-directory target with recursive flag + files for "
     "the single-file library comparison. Runs: the command on every file, on '.', on the sub-directory, on the subset, on "
     "sub-directory + outside files; Linter.lint on '.', the sub-directory and the chosen files. Non-trivial: >=3 files in "
     ">=2 directories and the command reports violations in >=2 files. Distinct = hash of (command, (directory, "
